@@ -4,25 +4,38 @@
    breaks one of these lemmas (C01 and C09 import this file). *)
 From V.model Require Import Base Deb822Lex RelLex.
 From V.gen Require Import Classes_gen.
+From Coq Require Import Lia.
 
 Lemma classes_recognised_ok : classes_recognised = true.
 Proof. reflexivity. Qed.
 
+(* two boolean formulas over comparisons of c with constants are equal: decided by case analysis
+   on every comparison (so a reordering or a logically equivalent rewrite of the Rust predicate
+   does not break the obligation, a change of meaning does) *)
+Ltac class_eq :=
+  intros;
+  repeat match goal with
+  | |- context [(?a =? ?b)%N] =>
+      let E := fresh "E" in destruct (a =? b)%N eqn:E; [apply N.eqb_eq in E; subst|apply N.eqb_neq in E]
+  | |- context [(?a <=? ?b)%N] =>
+      let E := fresh "E" in destruct (a <=? b)%N eqn:E; [apply N.leb_le in E|apply N.leb_gt in E]
+  end; cbn; first [reflexivity | exfalso; lia | lia].
+
 (* the character classes of src/common.rs *)
 Lemma is_indent_src_eq c : is_indent c = is_indent_src c.
-Proof. reflexivity. Qed.
+Proof. unfold is_indent, is_indent_src. class_eq. Qed.
 Lemma is_newline_src_eq c : is_newline c = is_newline_src c.
-Proof. reflexivity. Qed.
+Proof. unfold is_newline, is_newline_src. class_eq. Qed.
 Lemma is_valid_key_char_src_eq c : is_valid_key_char c = is_valid_key_char_src c.
-Proof. reflexivity. Qed.
+Proof. unfold is_valid_key_char, is_valid_key_char_src, is_ascii_graphic. class_eq. Qed.
 Lemma is_valid_initial_key_char_src_eq c : is_valid_initial_key_char c = is_valid_initial_key_char_src c.
-Proof. reflexivity. Qed.
+Proof. unfold is_valid_initial_key_char, is_valid_initial_key_char_src, is_valid_key_char, is_valid_key_char_src, is_ascii_graphic. class_eq. Qed.
 
 (* the character classes of the relations lexer *)
 Lemma is_rel_ws_src_eq c : is_rel_ws c = is_whitespace_src c.
-Proof. reflexivity. Qed.
+Proof. unfold is_rel_ws, is_whitespace_src. class_eq. Qed.
 Lemma is_ident_char_src_eq c : is_ident_char c = is_valid_ident_char_src c.
-Proof. reflexivity. Qed.
+Proof. unfold is_ident_char, is_valid_ident_char_src, is_ascii_alnum. class_eq. Qed.
 
 (* the single-character arms: same characters, same kinds, same order of precedence (the arms are
    disjoint, so order is immaterial once the characters are pairwise different) *)
